@@ -181,6 +181,9 @@ def shouldPrune : Option (List Elem) → Bool
   | none => true
   | some es => es.isEmpty
 
+/-- TeX.2021.887: `\\leftskip` is only inserted if it is not zero. -/
+def leftPart (p : Params) : List Item := if p.leftSkip.isZero then [] else [.glue 0 p.leftSkip]
+
 /-- TeX.2021.879: how many items after `start1` are pruned (`rest` = the break points still
 to come). -/
 def pruneAfter (l : List Item) (pend' : Option (List Elem)) (start1 : Nat) (rest : List Nat) :
@@ -208,7 +211,7 @@ def step (p : Params) (l : List Item) (n idx start : Nat) (pending : Option (Lis
         | .error e => .error e
         | .ok w =>
           let ln : Line :=
-            { left := if p.leftSkip.isZero then [] else [.glue 0 p.leftSkip]
+            { left := leftPart p
               post := pendingItems pending
               body := (l.drop start).take (bp - start)
               brk := brk
@@ -298,8 +301,6 @@ def stripPrefix : List Item → List Item → Option (List Item)
 
 def stripSuffix (s l : List Item) : Option (List Item) :=
   (stripPrefix s.reverse l.reverse).map List.reverse
-
-def leftPart (p : Params) : List Item := if p.leftSkip.isZero then [] else [.glue 0 p.leftSkip]
 
 /-- Read one line box: take away `\leftskip`, the post-break half of the discretionary that
 ended the previous line, `\rightskip` and the visible remains of the break item. What is
